@@ -16,6 +16,11 @@ import (
 type fsm struct {
 	peer *peer
 
+	// index of this FSM in the peer's FSM table (out or in). It is fixed at
+	// creation so the FSM goroutine never has to read the table, which only
+	// the peer manager goroutine may access.
+	dir int
+
 	// the bgp ID received in the latest open message
 	remoteID uint32
 
@@ -45,9 +50,10 @@ type fsm struct {
 	idleHoldTimer     *time.Timer
 }
 
-func newFSM(peer *peer, conn net.Conn) *fsm {
+func newFSM(peer *peer, conn net.Conn, dir int) *fsm {
 	f := &fsm{
 		peer:    peer,
+		dir:     dir,
 		conn:    conn,
 		closeCh: make(chan struct{}),
 		doneCh:  make(chan struct{}),
